@@ -12,7 +12,7 @@ import (
 )
 
 func runL2(c Case) *ev.Verdict {
-	v, tr := l2.RunHistory(c.H, l2.Opts{P: "C01", Trusted: true, Batch: c.Batch, Fatal: c.Fatal, FatalKind: c.FatalKind, Net: c.Level == "L3", ObserveEvery: c.Every, NoRefCheck: c.NoRefCheck, ReElect: c.ReElect})
+	v, tr := l2.RunHistory(c.H, l2.Opts{P: "C01", Trusted: true, Batch: c.Batch, Fatal: c.Fatal, FatalKind: c.FatalKind, Net: c.Level == "L3", ObserveEvery: c.Every, NoRefCheck: c.NoRefCheck, ReElect: c.ReElect, LateVRF: c.LateVRF})
 	if c.NoRefCheck {
 		v.Class("reference-checks-disabled")
 	}
@@ -88,6 +88,12 @@ func campaignL2(t *testing.T) {
 		c.NoRefCheck = rapid.IntRange(0, 7).Draw(rt, "norefcheck?") == 0
 		if c.Fatal == 0 && rapid.IntRange(0, 3).Draw(rt, "reelect?") == 0 {
 			c.ReElect = rapid.IntRange(1, 3).Draw(rt, "reelect")
+		}
+		if wild != "bulk" && len(c.H.Steps) > 2 && rapid.IntRange(0, 3).Draw(rt, "late-vrf?") == 0 {
+			c.LateVRF = rapid.IntRange(1, len(c.H.Steps)-1).Draw(rt, "late-vrf")
+			// (an operation for an instance that does not exist yet is refused in-band before its
+			// stamp is looked at: the fatal-stamp clause is left to the cases with all instances)
+			c.Fatal, c.FatalKind = 0, 0
 		}
 		if rapid.IntRange(0, 3).Draw(rt, "l3?") == 0 {
 			// the same history over real gRPC (bufconn): transport must not change anything
